@@ -112,9 +112,38 @@ pub fn guarded<R>(f: impl FnOnce() -> R) -> Result<R, PanicInfo> {
 type AnyBox = Box<dyn Any + Send>;
 type Job = Box<dyn FnOnce() -> Result<AnyBox, PanicInfo> + Send>;
 
+/// What a sim-thread reports to the simulator: the job's result, or "parked in the middle of a
+/// library call" (at a scheduling point of the hooks build), waiting to be resumed.
+enum Ev {
+    Parked(&'static str),
+    Done(Result<AnyBox, PanicInfo>),
+}
+
+thread_local! {
+    /// the sim-thread's own line to the simulator, used by `park_here`
+    static PARK: RefCell<Option<(Sender<Ev>, Receiver<()>)>> = RefCell::new(None);
+}
+
+/// Called on a sim-thread from inside a library call: hand control back to the simulator and
+/// block until it releases this thread again. Which thread runs meanwhile is the simulator's choice.
+pub fn park_here(site: &'static str) {
+    PARK.with(|p| {
+        if let Some((tx, resume)) = p.borrow().as_ref() {
+            if tx.send(Ev::Parked(site)).is_ok() {
+                let _ = resume.recv();
+            }
+        }
+    });
+}
+
+/// Set once a released thread did not come back while another one was parked mid-call (it waits
+/// for something the parked thread holds): from then on this process no longer parks threads mid-call.
+pub static PREEMPT_BLOCKED: std::sync::atomic::AtomicBool = std::sync::atomic::AtomicBool::new(false);
+
 pub struct SimThread {
     tx: Option<Sender<Job>>,
-    rx: Receiver<Result<AnyBox, PanicInfo>>,
+    rx: Receiver<Ev>,
+    resume: Sender<()>,
     handle: Option<JoinHandle<()>>,
     pub generation: usize,
 }
@@ -122,28 +151,90 @@ pub struct SimThread {
 impl SimThread {
     pub fn spawn(generation: usize) -> SimThread {
         let (tx, jobs) = channel::<Job>();
-        let (results, rx) = channel::<Result<AnyBox, PanicInfo>>();
+        let (results, rx) = channel::<Ev>();
+        let (resume, resume_rx) = channel::<()>();
         let handle = thread::Builder::new()
             .name("sim-thread".into())
             .stack_size(16 << 20)
             .spawn(move || {
+                PARK.with(|p| *p.borrow_mut() = Some((results.clone(), resume_rx)));
                 while let Ok(job) = jobs.recv() {
                     let r = job();
-                    if results.send(r).is_err() {
+                    if results.send(Ev::Done(r)).is_err() {
                         break;
                     }
                 }
             })
             .expect("spawn sim thread");
-        SimThread { tx: Some(tx), rx, handle: Some(handle), generation }
+        SimThread { tx: Some(tx), rx, resume, handle: Some(handle), generation }
+    }
+
+    fn start<R: Send + 'static>(&self, f: impl FnOnce() -> R + Send + 'static) {
+        let job: Job = Box::new(move || guarded(f).map(|r| Box::new(r) as AnyBox));
+        self.tx.as_ref().expect("thread alive").send(job).expect("sim thread gone");
+    }
+
+    fn finish<R: Send + 'static>(&self) -> Result<R, PanicInfo> {
+        loop {
+            match self.rx.recv().expect("sim thread died") {
+                Ev::Done(r) => return r.map(|b| *b.downcast::<R>().expect("job result type")),
+                // nobody asked this job to park: let it go on
+                Ev::Parked(_) => self.resume.send(()).expect("sim thread gone"),
+            }
+        }
     }
 
     /// Release this thread for exactly one job and wait until it parks again.
     pub fn run<R: Send + 'static>(&self, f: impl FnOnce() -> R + Send + 'static) -> Result<R, PanicInfo> {
-        let job: Job = Box::new(move || guarded(f).map(|r| Box::new(r) as AnyBox));
-        self.tx.as_ref().expect("thread alive").send(job).expect("sim thread gone");
-        let r = self.rx.recv().expect("sim thread died");
-        r.map(|b| *b.downcast::<R>().expect("job result type"))
+        self.start(f);
+        self.finish()
+    }
+
+    /// Release this thread for one job that parks itself (`park_here`) at most once in the middle
+    /// of a library call; while it is parked, `other` is released for one whole job `g`; then this
+    /// thread is resumed. Returns both results and the site at which the first job was parked
+    /// (None: it finished without reaching the chosen scheduling point, `g` ran afterwards).
+    /// If `other` does not come back within `patience` while this thread is parked, it is waiting
+    /// for something this thread holds: this thread is resumed first (legal blocking, not a finding).
+    pub fn run_preempted<R: Send + 'static, R2: Send + 'static>(
+        &self,
+        f: impl FnOnce() -> R + Send + 'static,
+        other: &SimThread,
+        g: impl FnOnce() -> R2 + Send + 'static,
+        patience: std::time::Duration,
+    ) -> (Result<R, PanicInfo>, Result<R2, PanicInfo>, Option<&'static str>) {
+        self.start(f);
+        match self.rx.recv().expect("sim thread died") {
+            Ev::Done(r) => {
+                let r1 = r.map(|b| *b.downcast::<R>().expect("job result type"));
+                (r1, other.run(g), None)
+            }
+            Ev::Parked(site) => {
+                other.start(g);
+                let first = match other.rx.recv_timeout(patience) {
+                    Ok(ev) => Some(ev),
+                    Err(_) => {
+                        PREEMPT_BLOCKED.store(true, std::sync::atomic::Ordering::SeqCst);
+                        None
+                    }
+                };
+                let r2 = match first {
+                    Some(Ev::Done(r)) => Some(r.map(|b| *b.downcast::<R2>().expect("job result type"))),
+                    Some(Ev::Parked(_)) => {
+                        other.resume.send(()).expect("sim thread gone");
+                        Some(other.finish::<R2>())
+                    }
+                    None => None,
+                };
+                self.resume.send(()).expect("sim thread gone");
+                let r1 = self.finish::<R>();
+                let r2 = match r2 {
+                    Some(r) => r,
+                    None => other.finish::<R2>(),
+                };
+                (r1, r2, Some(site))
+            }
+        }
     }
 }
 
